@@ -331,7 +331,10 @@ fn run_task_legs(ctx: &Ctx) {
     } else {
         run_task_grid(ctx, "task", &task_grid(&scripts, 4, 5), 1200.0, 20_000_000, "4 on the whole grid, 5 for capacity 1 with budget 2 and 64");
         // one more deviation, for as many configurations as fit into the wall cap
-        run_task_grid(ctx, "task-deep", &task_grid(&scripts, 5, 6), 420.0, 20_000_000, "5 on the whole grid, 6 for capacity 1 with budget 2 and 64 (configurations in grid order until the wall cap)");
+        // (cheapest first: d=5 configurations, then the d=6 ones with the larger budget first)
+        let mut deep = task_grid(&scripts, 5, 6);
+        deep.sort_by_key(|(c, d)| (*d, std::cmp::Reverse(c.budget)));
+        run_task_grid(ctx, "task-deep", &deep, 300.0, 20_000_000, "5 on the whole grid, 6 for capacity 1 with budget 2 and 64 (d=5 configurations first, then d=6, until the wall cap; see per_configuration for what completed)");
     }
     // The smallest budget the API accepts (NonZeroUsize 1), outside the designed grid {2,3,64}.
     let b1 = TCfg { cap: 2, budget: 1, script: scripts[0].clone() };
